@@ -68,6 +68,11 @@ def space(tier, seed):
     qs.append(('base', {'items': [('bmax', F('a', 1), F('a', 2))], 'where': None, 'group': None}))
     qs.append(('gen', {'items': [F('a', 1), ('bmaxgen', F('a', 3), ';'), ('bminmap', F('a', 3), ';'), ('bsumgen', F('a', 3), ';')], 'where': None, 'group': None}))
     qs.append(('gen', {'items': [F('a', 1), ('agg', 'SUM', 'U', ('bmaxgen', F('a', 3), ';'))], 'where': None, 'group': [F('a', 1)]}))
+    # aggregates over ordered values that are neither text nor numbers (dates built with the datetime module the engine offers to queries), every spelling
+    D = ('todate', F('a', 3))
+    for grp in (None, [F('a', 1)]):
+        qs.append(('str', {'items': [A('MIN', 'l', D), A('MAX', 'l', D), A('MIN', 'U', D), A('MAX', 'C', D), A('COUNT', 'U', D)], 'where': None, 'group': grp}))
+        qs.append(('str', {'items': [A('MAX', 'l', D), A('ANY_VALUE', 'l', D)], 'where': wheres[1], 'group': grp}))
     # scale probe: one group of 15..20 distinct values (even and odd sizes: the two middle elements differ)
     for kind in ('MEDIAN', 'AVG', 'VARIANCE', 'MIN', 'MAX', 'SUM', 'COUNT', 'ARRAY_AGG'):
         qs.append(('biggroup', {'items': [A(kind, 'U', F('a', 3))], 'where': None, 'group': None}))
